@@ -165,6 +165,7 @@ type ctl struct {
 type Walker struct {
 	P           *Prog
 	MaxDepth    int
+	exprDepth   int
 	MaxPaths    int
 	Inline      func(caller, callee *FuncInfo) bool
 	Unsupported map[string]string // function name -> reason
@@ -929,6 +930,46 @@ func (w *Walker) ret(x *ast.ReturnStmt, st *pstate, c *ctl) {
 // conditions
 
 func (w *Walker) cond(e ast.Expr, st *pstate, c *ctl, kT, kF func(*pstate)) {
+	// `if helper(…)` / `if !helper(…)` where helper is a predicate the obligation tables have never seen
+	// ("extract condition into a function"): its paths are walked and the branch follows what it returns
+	{
+		x, negated := ast.Unparen(e), false
+		if u, ok := x.(*ast.UnaryExpr); ok && u.Op == token.NOT {
+			x, negated = ast.Unparen(u.X), true
+		}
+		if call, ok := x.(*ast.CallExpr); ok {
+			if target := w.P.Funcs[w.calleeOf(call, c)]; target != nil && IsNewHelper(target) && w.Inline(c.fn, target) &&
+				len(st.stack) <= w.MaxDepth && !onStack(st.stack, target) && target != c.fn {
+				if sig, ok := target.Obj.Type().(*types.Signature); ok && sig.Results().Len() == 1 && isBoolType(sig.Results().At(0).Type()) {
+					w.call(call, st, c, func(s *pstate, vals []string) {
+						v := ""
+						if len(vals) == 1 {
+							v = vals[0]
+						}
+						switch {
+						case v == "true" && !negated, v == "false" && negated:
+							kT(s)
+						case v == "false" && !negated, v == "true" && negated:
+							kF(s)
+						default:
+							l := Lit{L: v, R: "true", Mask: mEQ, RConst: constant.MakeBool(true)}
+							nl := Lit{L: v, R: "true", Mask: mLT | mGT, RConst: constant.MakeBool(true)}
+							if negated {
+								l, nl = nl, l
+							}
+							if s2 := w.assume(s.fork(), []Lit{l}, e); s2 != nil {
+								kT(s2)
+							}
+							if s2 := w.assume(s.fork(), []Lit{nl}, e); s2 != nil {
+								kF(s2)
+							}
+						}
+					})
+					return
+				}
+			}
+		}
+	}
 	w.evalCalls(e, st, c)
 	f := w.formula(e, st, c)
 	pos, ok1 := DNF(f, false)
@@ -1698,6 +1739,73 @@ func (w *Walker) call(call *ast.CallExpr, st *pstate, c *ctl, k func(*pstate, []
 	w.stmts(decl.Body.List, st, cc, func(s *pstate) { leave(s, w.namedVals(cc, s)) })
 }
 
+// exprHelper: a call of a helper the obligation tables have never seen (known.go) whose body is a single
+// `return <expression>` stands for that expression with the arguments substituted — "extract expression into a
+// function" leaves the canonical form of a value unchanged. Helpers of the walked module only, no recursion.
+func (w *Walker) exprHelper(call *ast.CallExpr, callee *types.Func, st *pstate, c *ctl) (string, bool) {
+	target := w.P.Funcs[callee]
+	if target == nil || !IsNewHelper(target) || target == c.fn || w.exprDepth > 3 {
+		return "", false
+	}
+	decl := target.Decl
+	if decl.Body == nil || len(decl.Body.List) != 1 || decl.Recv != nil {
+		return "", false
+	}
+	ret, ok := decl.Body.List[0].(*ast.ReturnStmt)
+	if !ok || len(ret.Results) != 1 {
+		return "", false
+	}
+	hasLit := false
+	ast.Inspect(ret.Results[0], func(n ast.Node) bool {
+		if _, ok := n.(*ast.FuncLit); ok {
+			hasLit = true
+		}
+		return !hasLit
+	})
+	if hasLit {
+		return "", false
+	}
+	tinfo := target.Pkg.TypesInfo
+	var bound []types.Object
+	i := 0
+	for _, f := range decl.Type.Params.List {
+		if _, variadic := f.Type.(*ast.Ellipsis); variadic {
+			return "", false
+		}
+		for _, n := range f.Names {
+			o := tinfo.Defs[n]
+			if o == nil || i >= len(call.Args) {
+				return "", false
+			}
+			if _, dup := st.env[o]; dup {
+				return "", false
+			}
+			st.env[o] = w.canon(call.Args[i], st, c)
+			bound = append(bound, o)
+			i++
+		}
+		if len(f.Names) == 0 {
+			i++
+		}
+	}
+	w.exprDepth++
+	out := w.canon(ret.Results[0], st, &ctl{fn: target, info: tinfo})
+	w.exprDepth--
+	for _, o := range bound {
+		delete(st.env, o)
+	}
+	return out, true
+}
+
+func onStack(stack []*FuncInfo, f *FuncInfo) bool {
+	for _, g := range stack {
+		if g == f {
+			return true
+		}
+	}
+	return false
+}
+
 func isPureBuiltin(name string) bool {
 	switch name {
 	case "len", "cap", "append", "make", "new", "delete", "close", "copy", "panic", "recover", "min", "max":
@@ -1991,6 +2099,9 @@ func (w *Walker) canon(e ast.Expr, st *pstate, c *ctl) string {
 		callee := w.calleeOf(x, c)
 		name := ""
 		recv := ""
+		if s, ok := w.exprHelper(x, callee, st, c); ok {
+			return s
+		}
 		if callee != nil {
 			name = ShortFuncName(callee)
 			if sel, ok := ast.Unparen(x.Fun).(*ast.SelectorExpr); ok {
